@@ -436,7 +436,7 @@ RULES = [
     ("helper", r"expected=|cannot pass map_type|invalid func|unknown func|is not pointing to valid bpf_map|"
                r"invalid map_ptr to access map|program of this type cannot use helper|fd \d+ is not"),
     ("alu", r"invalid shift|div by zero"),
-    ("ptr-alu", r"operator .* on pointer prohibited|pointer arithmetic|pointer \+= pointer|pointer -= pointer|32-bit pointer"),
+    ("ptr-alu", r"pointer be out of bounds|operator .* on pointer prohibited|pointer arithmetic|pointer \+= pointer|pointer -= pointer|32-bit pointer"),
     ("ctx", r"invalid bpf_context access|dereference of modified ctx ptr|modified ctx ptr"),
     ("mem", r"invalid mem access"),
 ]
@@ -969,3 +969,49 @@ def replay(ctx, case):
         ctx.require(v == "accept", "the kernel verifier rejects a program the generator accepted", case, res["verifier_log"], cls)
         res["class"] = cls
     return res
+
+
+THEOREMS = [
+    "Ebv.C05.accepts_structural", "Ebv.C05.structOk_spec", "Ebv.C05.wfInsn_imm",
+    "Ebv.C05.reg_init_sound", "Ebv.C05.reg_init_sound_strict", "Ebv.C05.exit_has_r0", "Ebv.C05.accepted_pc_in_range",
+    "Ebv.C05.step_next_pc", "Ebv.C05.step_call_pc", "Ebv.C05.step_frame",
+    "Ebv.C05.calc_covered", "Ebv.C05.owners_sound", "Ebv.C05.owners_check_insufficient",
+]
+TRUSTED = [
+    "the Linux verifier itself is the oracle of this property and is NOT modelled: Ebv.MiniV is a hand-written model of seven of its rules "
+    "(XDP programs), tied to the real verifier only by differential runs (every generated program and single-instruction mutants, kernel "
+    "named in the evidence); nothing is proved about the kernel",
+    "Ebv.Ebpf (ISA semantics, validated three-way by C01's ISA run) and Ebv.Gen (generator model of the C01 fragment, tied by C01's exact "
+    "bytecode correspondence); MiniV.reads/defs/kills (tied to Ebpf.step by step_frame / step_next_pc and used by both the instrumented "
+    "semantics and the checker)",
+    "harness/vh/kern.py (bpf(2) wrapper), the classification of verifier messages into rules (RULES in this file)",
+]
+ASSUMPTIONS = [
+    "program type XDP, license GPL, kernel of the sandbox (release recorded in the evidence); loads are made as root: privileged verifier mode "
+    "(reads of unwritten stack allowed, pointer comparisons/leaks allowed) -- MiniV is run in both its strict and its privileged stack mode",
+    "helpers outside {map_lookup_elem, map_update_elem, map_delete_elem, ktime_get_ns, get_prandom_u32, tail_call}, variable offsets into the "
+    "stack/packet, data_meta, bounded loops, bpf-to-bpf calls, alignment policy and complexity limits are outside the model (MiniV rejects them)",
+    "the program only uses initialised variables and owned registers, constants, declared maps and packet accesses inside a size guard, "
+    "no raw memory access, no pointer-holding register (r1, r7, r10) as an integer operand, locals fit 512 bytes",
+]
+RULE = ("all 15 library programs (dispatcher; bare fast groups of 4 packet layouts; fast groups with each bundled device and two mixtures) and 21 "
+        "candidate-defect programs on every run; random programs from 5 families (C01 DSL inside its precondition 160/3000, packet accesses of all "
+        "32 formats x 8 operations with half of the offsets at the last guarded byte 120/1500, C09 Dict/hash dispatchers 8/60, extended programs "
+        "with hash variables, ktime/prandom, with/Else, and/or/not/bit conditions, jumpIf, subprograms, early exits 160/3000, unowned-register "
+        "reads that must be refused 12/60); 5-40 single-instruction mutants (drop, change dst/src/off/imm, swap) of every library program and of "
+        "a sample of the others; non-trivial = more than 4 instructions / every mutant")
+LEVEL_TEXT = ("PARTIAL. The oracle is the Linux verifier, which is not modelled and about which nothing is proved. Proved (Lean 4, all programs / all "
+              "executions): for the abstract interpreter MiniV.accepts (seven verifier rules), acceptance implies forward in-range jumps that avoid "
+              "second slots, well-formed LD_IMM64, EXIT last, legal shift/division/byte-swap immediates (accepts_structural), and -- against the ISA "
+              "semantics Ebpf.step with arbitrary helper behaviour -- that every register an instruction reads has been written, r1-r5 being dead "
+              "after a call (reg_init_sound, exit_has_r0); for the generator model Gen (C01 fragment) every register an emitted instruction reads is "
+              "initially owned or written earlier (owners_sound) provided the expression's leaf registers have values, and that proviso is necessary "
+              "(owners_check_insufficient). Checked on every run, not proved: the real kernel accepts every regenerated program (property oracle), "
+              "MiniV accepts them too (regenerated obligations) and agrees with the kernel on mutants for the modelled rules.")
+LEVEL_NOTE = ("partial by nature: the kernel's full rule set (bounds tracking, path sensitivity, pruning, helper prototypes per program type, alignment, "
+              "complexity, version differences) is outside; rules (2)-(4),(6) of MiniV are executable and differentially tested but have no "
+              "soundness theorem against the ISA semantics; the link generator -> MiniV.accepts for whole programs (EmitAccepts) is stated, not "
+              "proved; trusted: Lean kernel + standard axioms, hand model MiniV, kern.py; known findings: findings/C05.json")
+TECHNIQUE = "Lean 4 proof about a verifier-rule model + differential runs against the real verifier (bpf(2) in the sandbox)"
+DESIGN_REF = "§4 C05"
+LEANCHECKER = True
